@@ -32,9 +32,46 @@ def run(res):
     cases = [gen(rnd) for _ in range(n)]
     gdbcheck.run_cases(res, cases, owns, 'C10', theorem='C10_stop_iff / C10_after_command',
                        nontrivial=lambda c, m: c['config'][1] is not None or any(e[0] != 'gmsg' for e in c['events']))
+    shared_app_id_sessions(res, rnd)
     prompt_loop(res, rnd)
     res.rule = ('gdb event sequences over 1-3 connection addresses: messages (matching and not), breakpoint/connection/resume/quit/other commands via `wl CMD` and `wlCMD`, '
                 'address reuse; plus TerminalUI.run_until_stopped on command scripts; non-trivial = has a breakpoint matcher or a command; distinct by event list')
+
+
+def shared_app_id_sessions(res, rnd):
+    """two or three connections announce the SAME app id (two windows of one application); `connection <app id>` selects the
+    first of them, and the program halts at matching messages of that connection only"""
+    n = 40 if res.tier == 'quick' else 1500
+    cases = []
+    for _ in range(n):
+        k = rnd.choice([2, 2, 3])
+        addrs = ['gdb_conn:0x%x' % (0x55550000 + 0x100 * i) for i in range(k)]
+        app = rnd.choice(['org.example.App', 'Terminal', 'foo', 'com.vendor.thing'])
+        lanes = {a: gdbcheck.gen_lifetime(rnd, rnd.choice([4, 8])) for a in addrs}
+        t = 1000000
+        ev = []
+
+        def msg(a, pm):
+            nonlocal t
+            t += rnd.choice([10, 1000, 400000])
+            pm = list(pm)
+            pm[0] = t
+            ev.append(['gmsg', a, 1, pm])
+        for a in addrs:
+            if lanes[a]:
+                msg(a, lanes[a].pop(0))
+        for a in addrs:
+            if rnd.random() < 0.9:
+                msg(a, [0, ['my_widget'], 3000 + rnd.randrange(20), 1, 'set_app_id', [['str', app]]])
+        ev.append(['gcmd', rnd.choice(['connection ' + app, 'c ' + app.upper(), 'conn ' + app])])
+        ev.append(['gcmd', rnd.choice(['breakpoint *', 'b *', 'b wl_display, wl_registry, *'])])
+        while any(lanes.values()):
+            a = rnd.choice([x for x in addrs if lanes[x]])
+            msg(a, lanes[a].pop(0))
+            if rnd.random() < 0.3:
+                ev.append(['gcmd', rnd.choice(['resume', 'connection', 'r'])])
+        cases.append(dict(config=[None, None, 0, 1, 1], events=ev))
+    gdbcheck.run_cases(res, cases, owns, 'C10 (connections sharing an app id)', theorem='C10_halt_event', nontrivial=lambda c, m: True, kernel_sample=3)
 
 
 def prompt_loop(res, rnd):
